@@ -140,7 +140,8 @@ def open_stream(data, kind):
             st = io.BufferedReader(io.BytesIO(prefix + data), buffer_size=64)
         else:
             st = io.BytesIO(prefix + data)
-        assert st.read(n) == prefix
+        if st.read(n) != prefix:
+            raise RuntimeError('prefix not consumed')
         return st
     if kind == 'file':
         import tempfile
